@@ -1107,6 +1107,101 @@ def check_unconstraining_covers_the_configuration(ctx, rep):
                   "create_variational_model must hand the configuration it receives to the family builders (which remove the constraints)")
 
 
+def check_jacobian_terms_are_evaluable(ctx, rep):
+    """C19.J (addition) — create_jacobians lists every TransformedParameter of the specification except the ones its own test excludes; each listed one is *called* when the
+    target is evaluated, which returns transform.log_abs_det_jacobian(x, y).  For every transform the builders put into a TransformedParameter literal: if the class's
+    log_abs_det_jacobian unconditionally raises (NotImplementedError) the literal must be excluded by create_jacobians' test, otherwise the emitted configuration stops at the
+    first evaluation of joint.jacobian."""
+    jm = ctx.prog.module(f"{CLI}.jacobians")
+    cj = jm.functions.get('create_jacobians')
+    if cj is None:
+        raise AnalysisError('jacobians.create_jacobians not found')
+    excluded_names = {c.value for n in ast.walk(cj) if isinstance(n, ast.Compare) for c in [n.left] + list(n.comparators) if isinstance(c, ast.Constant) and isinstance(c.value, str)}
+    excluded_names |= {x.value for n in ast.walk(cj) if isinstance(n, ast.Compare) for c in n.comparators if isinstance(c, (ast.Tuple, ast.List, ast.Set)) for x in c.elts if isinstance(x, ast.Constant)}
+    # which builder functions produce objects that are in the list when create_jacobians scans it: results appended / extended into the scanned list *before* the call
+    table = {}
+    for mname, m in ctx.prog.modules.items():
+        if mname.startswith(CLI):
+            for fname, f in m.functions.items():
+                table.setdefault(fname, (m, f))
+
+    def callees(f):
+        return {c.func.id for c in ast.walk(f) if isinstance(c, ast.Call) and isinstance(c.func, ast.Name) and c.func.id in table} | \
+               {c.func.attr for c in ast.walk(f) if isinstance(c, ast.Call) and isinstance(c.func, ast.Attribute) and isinstance(c.func.value, ast.Name) and c.func.attr in table
+                and c.func.value.id in ('evolution', 'utils', 'priors', 'loggers')}
+    scanned_roots = set()
+    for mod, bname in (('advi', 'build_advi'), ('hmc', 'build_hmc'), ('mcmc', 'build_mcmc'), ('map', 'build_optimizer')):
+        bm = ctx.prog.module(f"{CLI}.{mod}")
+        b = bm.functions.get(bname)
+        if b is None:
+            continue
+        call_st = next((i for i, st in enumerate(b.body) if any(isinstance(c, ast.Call) and isinstance(c.func, ast.Name) and c.func.id == 'create_jacobians' for c in ast.walk(st))), None)
+        if call_st is None:
+            continue
+        scanned = next((c.args[0].id for st in [b.body[call_st]] for c in ast.walk(st) if isinstance(c, ast.Call) and isinstance(c.func, ast.Name) and c.func.id == 'create_jacobians'
+                        and c.args and isinstance(c.args[0], ast.Name)), None)
+        produced = {}
+        for st in b.body[:call_st]:
+            for x in ast.walk(st):
+                if isinstance(x, ast.Assign) and isinstance(x.value, ast.Call):
+                    fn_name = x.value.func.id if isinstance(x.value.func, ast.Name) else (x.value.func.attr if isinstance(x.value.func, ast.Attribute) else None)
+                    for t in x.targets:
+                        for el in (t.elts if isinstance(t, ast.Tuple) else [t]):
+                            if isinstance(el, ast.Name):
+                                produced[el.id] = fn_name
+                if isinstance(x, ast.Call) and isinstance(x.func, ast.Attribute) and x.func.attr in ('append', 'extend', 'insert') and isinstance(x.func.value, ast.Name) and x.func.value.id == scanned:
+                    for a in x.args:
+                        for y in ast.walk(a):
+                            if isinstance(y, ast.Name) and produced.get(y.id) in table:
+                                scanned_roots.add(produced[y.id])
+                            if isinstance(y, ast.Call) and isinstance(y.func, ast.Name) and y.func.id in table:
+                                scanned_roots.add(y.func.id)
+    reach = set(scanned_roots)
+    work = list(scanned_roots)
+    while work:
+        f = work.pop()
+        for g in callees(table[f][1]):
+            if g not in reach:
+                reach.add(g)
+                work.append(g)
+    n = 0
+    seen = set()
+    for mname, m in sorted(ctx.prog.modules.items()):
+        if not mname.startswith(CLI):
+            continue
+        for d in ast.walk(m.tree):
+            if not isinstance(d, ast.Dict):
+                continue
+            encl = enclosing_function(d)
+            if encl is None or encl.name not in reach:
+                continue        # built by a function whose result is not in the scanned list (e.g. the variational distribution, appended after the scan)
+            kv = {k.value: v for k, v in zip(d.keys, d.values) if isinstance(k, ast.Constant)}
+            if not (isinstance(kv.get('type'), ast.Constant) and kv['type'].value == 'TransformedParameter' and isinstance(kv.get('transform'), ast.Constant)):
+                continue
+            t = kv['transform'].value
+            if t in seen:
+                continue
+            seen.add(t)
+            short = t.split('.')[-1]
+            cands = [c for c in ctx.classes.classes.values() if c.node.name == short and not t.startswith('torch.')]
+            if not cands:
+                continue            # torch's own transforms implement their log-determinant (trusted)
+            n += 1
+            cls = cands[0]
+            r = cls.resolve('log_abs_det_jacobian')
+            raises = False
+            if r:
+                body = [st for st in r[1].body if not (isinstance(st, ast.Expr) and isinstance(st.value, ast.Constant))]
+                raises = len(body) == 1 and isinstance(body[0], ast.Raise)
+            listed = t not in excluded_names and short not in excluded_names
+            rep.check('C19.J', f"create_jacobians::log-determinant-of-{short}-is-implemented-or-excluded", not (raises and listed), where(m, d),
+                      {'transform': t, 'log_abs_det_jacobian_raises': raises, 'listed_by_create_jacobians': listed},
+                      f"the builders wrap a parameter in `{t}`, whose log_abs_det_jacobian only raises NotImplementedError, and create_jacobians does not exclude it: its id is put "
+                      f"into joint.jacobian and the first evaluation of the target stops with NotImplementedError (the emitted configuration is not runnable)")
+    if n < 1:
+        rep.incomplete('C19.J', 'create_jacobians::torchtree-transforms', '', f'no torchtree transform found in the TransformedParameter literals of the scanned builders (roots: {sorted(scanned_roots)})')
+
+
 def run(ctx, rep):
     rep.explanation = (
         "Reader table: for every registered class the keys its from_json dereferences on every path to a normal return (CFG must-pass, helpers inlined) and "
@@ -1128,7 +1223,7 @@ def run(ctx, rep):
     rep.rule('C19.N', "tensor-only torch functions are never applied to a plain Python number in the builders")
     rep.not_decided += ["finiteness of density and gradient at the initial point", "pairwise option coverage at run time", "plugins"]
     from props import c19_ids, c19_flow
-    steps = ((check_types_and_keys, 'C19.K'), (check_jacobians, 'C19.J'), (check_make_unconstrained, 'C19.U'), (check_fixed_parameters_stay_fixed, 'C19.U'), (check_unconstraining_covers_the_configuration, 'C19.U'), (check_advi_transforms, 'C19.U'), (c19_ids.check_ids, 'C19.R'),
+    steps = ((check_types_and_keys, 'C19.K'), (check_jacobians, 'C19.J'), (check_jacobian_terms_are_evaluable, 'C19.J'), (check_make_unconstrained, 'C19.U'), (check_fixed_parameters_stay_fixed, 'C19.U'), (check_unconstraining_covers_the_configuration, 'C19.U'), (check_advi_transforms, 'C19.U'), (c19_ids.check_ids, 'C19.R'),
              (c19_flow.check_exhaustive, 'C19.E'), (c19_flow.check_pynum, 'C19.N'), (check_stale_loop_variables, 'C19.V'), (c19_ids.check_none_sizes, 'C19.G'))
     for f, rule in steps:
         try:
